@@ -2797,6 +2797,25 @@ class Engine:
                 P_ = pyobj_sort()
                 self.oblige(s, 'iterated-pyobj-is-list', P_.is_py_strlist(itd.z), stmt)
                 itd = VSeq(P_.py_l(itd.z), 'str')
+            if isinstance(itd, VMap) and lspec is not None:
+                # iterating a symbolic dict: its keys, each exactly once, in an order that is a function of the key
+                # set (dict_keys); dict_keypos is the position of a key.  The body may assign to values of existing
+                # keys (allowed by Python); adding/removing keys while iterating is not modelled.
+                ks_f = z3.Function('dict_keys_' + str(itd.dom.sort().domain()), itd.dom.sort(),
+                                   z3.SeqSort(itd.dom.sort().domain()))
+                pos_f = z3.Function('dict_keypos_' + str(itd.dom.sort().domain()), itd.dom.sort(),
+                                    itd.dom.sort().domain(), IntS)
+                ks = ks_f(itd.dom)
+                j_ = z3.Int(fresh_name('kj'))
+                k_ = z3.Const(fresh_name('kk'), itd.dom.sort().domain())
+                s.assume(z3.ForAll([j_], z3.Implies(z3.And(0 <= j_, j_ < z3.Length(ks)),
+                                                    z3.And(z3.Select(itd.dom, ks[j_]),
+                                                           pos_f(itd.dom, ks[j_]) == j_))))
+                s.assume(z3.ForAll([k_], z3.Implies(z3.Select(itd.dom, k_),
+                                                    z3.And(0 <= pos_f(itd.dom, k_),
+                                                           pos_f(itd.dom, k_) < z3.Length(ks),
+                                                           ks[pos_f(itd.dom, k_)] == k_))))
+                itd = VSeq(ks, itd.kt)
             if isinstance(itd, (VTuple, VList)) and (lspec is None or lspec.unroll):
                 out.extend(self.unroll_for(stmt, s, list(itd.items)))
                 continue
